@@ -52,7 +52,7 @@ class Opts(object):
         self.chunk_paths = 40
         self.chunk_seconds = 3.0
         self.max_paths = 20000 if tier == "quick" else 400000
-        self.wall_budget_s = 150.0 if tier == "quick" else 1500.0
+        self.wall_budget_s = 300.0 if tier == "quick" else 1500.0
 
 
 # ------------------------------------------------------------------ monitoring
